@@ -12,7 +12,7 @@ Lemma do_backoff_cases e w i c maxms errid s w' r :
   do_backoff e w i c maxms errid s = (w', r) ->
   (w' = w /\ (r = RBad \/ r = RErrOrig \/
               exists b, nth_error (w_bos w) i = Some b /\ (0 <? b_max b) && exceeded e b (c_name c) = true
-                        /\ r = RExceeded (longest_cands e b))) \/
+                        /\ r = RExceeded (longest_cands e w b))) \/
   (exists b f, nth_error (w_bos w) i = Some b /\ b_live b = true /\ cancelled w (b_ctx b) = false /\
                b_noop b = false /\ (0 <? b_max b) && exceeded e b (c_name c) = false /\
                pick_fn e w b c = Some f /\ sleep_ok f s = true /\
